@@ -630,12 +630,19 @@ func (c *Ctx) dispatchTables(t *Tables) {
 				name, ok = core.ConstString(bo.X)
 				nameVal = bo.Y
 			}
-			if !ok || !isCallerName(nameVal) {
+			if !ok || !(isCallerName(nameVal) || c.paramIsCallerName(nameVal)) {
 				continue
 			}
 			ctx := "statement"
-			if f.Signature.Results().Len() > 0 && core.IsNamedType(f.Signature.Results().At(0).Type(), core.ModPath+"/internal/interpreter", "Value") {
-				ctx = "origin"
+			if f.Signature.Results().Len() > 0 {
+				r0 := f.Signature.Results().At(0).Type()
+				// a lookup function hands back the implementation instead of calling it
+				if sig, ok := r0.Underlying().(*types.Signature); ok && sig.Results().Len() > 0 {
+					r0 = sig.Results().At(0).Type()
+				}
+				if core.IsNamedType(r0, core.ModPath+"/internal/interpreter", "Value") {
+					ctx = "origin"
+				}
 			}
 			body := b.Succs[0]
 			for _, bb := range f.Blocks {
@@ -644,6 +651,35 @@ func (c *Ctx) dispatchTables(t *Tables) {
 				}
 				done := false
 				for _, in := range bb.Instrs {
+					// table-style dispatch: the arm returns the implementing function
+					if ret, ok := in.(*ssa.Return); ok {
+						for _, rv := range ret.Results {
+							var sc *ssa.Function
+							switch y := rv.(type) {
+							case *ssa.Function:
+								sc = y
+							case *ssa.MakeClosure:
+								sc, _ = y.Fn.(*ssa.Function)
+							case *ssa.ChangeType:
+								sc, _ = y.X.(*ssa.Function)
+							}
+							if sc == nil {
+								continue
+							}
+							if seq, ok := t.RBuilt["fn:"+sc.Name()]; ok {
+								t.RBuilt[name] = seq
+								t.RBuiltP[name] = t.RBuiltP["fn:"+sc.Name()]
+								t.RCtx[name] = ctx
+								implOf[name] = sc
+								c.Touch(f)
+								done = true
+							}
+						}
+						if done {
+							break
+						}
+						continue
+					}
 					call, ok := in.(*ssa.Call)
 					if !ok {
 						continue
@@ -672,6 +708,30 @@ func (c *Ctx) dispatchTables(t *Tables) {
 		}
 	}
 	t.Impl = implOf
+}
+
+// paramIsCallerName: v is a parameter of a function every call site of which passes the name
+// of a function-call identifier.
+func (c *Ctx) paramIsCallerName(v ssa.Value) bool {
+	p, ok := v.(*ssa.Parameter)
+	if !ok {
+		return false
+	}
+	fn := p.Parent()
+	idx := paramIndex(fn, p)
+	n := 0
+	for _, g := range c.P.ModuleFunctions() {
+		for _, ci := range core.Calls(g) {
+			if ci.Common().StaticCallee() != fn || idx < 0 || idx >= len(ci.Common().Args) {
+				continue
+			}
+			n++
+			if !isCallerName(ci.Common().Args[idx]) {
+				return false
+			}
+		}
+	}
+	return n > 0
 }
 
 // isCallerName: v is (a copy of) the Name field of a function-call identifier.
